@@ -42,13 +42,13 @@ def thorough_set():
         gb.cfg("lsn", dict(orthogonal=True), psi_sign=-1.0, label="lsn-orth-negpsi", **P),
         gb.cfg("usn", dict(orthogonal=True), psi_sign=-1.0, label="usn-orth-negpsi", **P),
         gb.cfg("cdn", dict(orthogonal=True), label="cdn-orth", **P),
-        gb.cfg("cdn", dict(orthogonal=True, psi_interpolation_method="dct"), label="cdn-orth-dct", **P),
+        gb.cfg("lsn", dict(orthogonal=True, psi_interpolation_method="dct"), label="lsn-orth-dct", **P),
         gb.cfg("udn", dict(orthogonal=False), label="udn-nonorth", **P),
         gb.cfg("ldn", dict(orthogonal=False), label="ldn-nonorth", **P),
-        gb.cfg("udn2", dict(orthogonal=True), label="udn2-orth", **P),
+        gb.cfg("udn2", dict(orthogonal=True, psinorm_sol=1.3, psinorm_sol_inner=1.3), label="udn2-orth", **P),
         gb.cfg("udn", dict(orthogonal=True, start_at_upper_outer=True), label="udn-orth-upper-outer-start", **P),
         gb.cfg("ldn", dict(orthogonal=True, start_at_upper_outer=True), label="ldn-orth-upper-outer-start", **P),
-        gb.cfg("cdn", dict(orthogonal=True, ny_inner_upper_divertor=2, ny_outer_upper_divertor=6, ny_inner_lower_divertor=5, ny_outer_lower_divertor=3, y_boundary_guards=1), label="cdn-orth-unequal-legs", **P),
+        gb.cfg("cdn", dict(orthogonal=True, ny_inner_divertor=4, ny_outer_divertor=6, ny_inner_sol=6, ny_outer_sol=8, y_boundary_guards=1), label="cdn-orth-unequal-legs", **P),
         gb.cfg("cdn", dict(orthogonal=False), wall="slanted", label="cdn-nonorth-slanted-wall", **P),
         gb.cfg("lsn", dict(orthogonal=True), wall="box_cw", label="lsn-orth-clockwise-wall", **P),
         gb.cfg("lsn", dict(orthogonal=True), wall="many", label="lsn-orth-100-vertex-wall", **P),
